@@ -614,9 +614,34 @@ def _normalise(facts):
             use["normalised"] = True
             use["inlined_local"] = lid
 
+    def destructure_alias(body):
+        """`let S { a, b, .. } = v;` (by value, from a local): `a` *is* `v.a` from then on - every use of the new
+        local is read as the field of the old one, so that a rule about `visitor.assignments` still sees it"""
+        for blk in [n for n in _walk_json(body) if n.get("k") == "Block"]:
+            for st in blk.get("stmts", []):
+                pat = st.get("pat") or {}
+                init = peel(st.get("init")) if st.get("init") is not None else None
+                if not (st.get("k") == "Let" and "els" not in st and pat.get("k") == "Struct" and isinstance(init, dict) and init.get("k") == "Path" and (init.get("res") or {}).get("res") == "Local" and not init.get("adj")):
+                    continue
+                if (pat.get("ty") or "").startswith("&"):
+                    continue
+                for fl in pat.get("fields", []):
+                    fp = fl.get("pat") or {}
+                    if fp.get("k") != "Binding" or fp.get("sub") or "Yes" in (fp.get("mode") or ""):
+                        continue
+                    lid = fp["local"]
+                    for use in [x for x in _walk_json(body) if x.get("k") == "Path" and (x.get("res") or {}).get("res") == "Local" and x["res"]["local"] == lid]:
+                        base = copy.deepcopy(init)
+                        base["id"] = fresh()
+                        keep = {kk: use[kk] for kk in ("adj", "aty", "sp", "id") if kk in use}
+                        use.clear()
+                        use.update({"k": "Field", "field": fl["name"], "ty": fp.get("ty"), "base_ty": pat.get("ty"), "x": base, "normalised": True, "destructured_local": lid})
+                        use.update(keep)
+
     for r in facts["fns"]:
         if "body" in r and not r.get("gen"):
             visit(r["body"])
+            destructure_alias(r["body"])
             inline_locals(r["body"])
     for c in facts.get("consts") or []:
         if "body" in c and not c.get("gen"):
